@@ -93,8 +93,8 @@ def cases(tier, seed):
 
 
 # ------------------------------------------------------------------ (c) dictionaries, faults, reference validator
-KINDS = ["delete", "null", "bool", "int", "float", "string", "list", "dict"]
-KVAL = {"null": None, "bool": True, "int": 3, "float": 2.5, "string": "s", "list": [], "dict": {}}
+KINDS = ["delete", "null", "bool", "int", "float", "string", "numstring", "list", "dict"]
+KVAL = {"null": None, "bool": True, "int": 3, "float": 2.5, "string": "s", "numstring": "7", "list": [], "dict": {}}
 
 
 def base_dicts(rep):
@@ -142,12 +142,8 @@ def _num(x):
         return "unspecified"
     if isinstance(x, (int, float)):
         return "valid"
-    if isinstance(x, str):
-        try:
-            float(x)
-            return "unspecified"
-        except ValueError:
-            return "invalid"
+    # a string is the wrong kind for a number field even when it spells a number ("7"): the statement asks for
+    # rejection rather than "being read as something else" (wave 6, W6C14-A)
     return "invalid"
 
 
